@@ -6,6 +6,9 @@ import json
 import os
 import sys
 import traceback
+import logging
+
+logging.disable(logging.WARNING)
 
 from harness import core
 
